@@ -25,12 +25,12 @@ SUR = "\ud800"
 GOOGLE_LINES = [
     "", "Summary.", "Args:", "Args: ", "Returns:", "Yields:", "Receives:", "Raises:", "Attributes:", "Examples:", "Note:", "Note: title", "Other Parameters:",
     "Functions:", "Classes:", "Modules:", "Warns:",
-    "    x: desc", "    x (int): desc", "    y (" + SUR + "): desc", "    (int): desc", "    int: desc", "    : desc", "    nocolon", "        continuation",
+    "    x: desc", "    x (int): desc", "    y (" + SUR + "): desc", "    (int): desc", "    z (await w): desc", "    int: desc", "    : desc", "    nocolon", "        continuation",
     "      odd indent", "  two", "    ", "```", "    >>> print(1)  # doctest: +SKIP", "    text", ":", "a:",
 ]
 NUMPY_LINES = [
     "", "Summary.", "Parameters", "Returns", "Returns ", "Yields", "Receives", "Raises", "Warns", "Attributes", "Examples", "Other Parameters", "Deprecated",
-    "Functions", "Classes", "Modules", "Note", "----------", "---", "x : int", "x, y : int, optional", "x : {1, 2}", "x", "int", "y : " + SUR, ": int",
+    "Functions", "Classes", "Modules", "Note", "----------", "---", "x : int", "x, y : int, optional", "x : {1, 2}", "z : await w", "x", "int", "y : " + SUR, ": int",
     "    description", "  odd", "```", ">>> print(1)  # doctest: +SKIP", "1.0", "f(a, b)", ":", "    ",
 ]
 SPHINX_LINES = [
